@@ -127,6 +127,8 @@ fn state_for_payload(payload: &str, sink: &str) -> Option<SchemaSet> {
         "documentation" => {
             let mut s = s1();
             s.files[0].comps.push(Comp::Complex(ComplexType { name: "Documented".into(), doc: Some(format!("first line\n{payload}\nlast line")), seq: Some(Seq::of(vec![el("V", TypeRef::b("string"))])), ..Default::default() }));
+            // (zeep keeps a complex type's documentation only when the type has no sequence)
+            s.files[0].comps.push(Comp::Complex(ComplexType { name: "DocumentedAttributesOnly".into(), doc: Some(format!("{payload}\nsecond line {payload}")), seq: None, attrs: vec![Attr { name: "k".into(), ty: TypeRef::b("string"), required: false, value_constraint: None }], ..Default::default() }));
             s.files[0].comps.push(Comp::Simple(SimpleType { name: "DocumentedSimple".into(), doc: Some(payload.to_string()), xmlns: vec![], base: TypeRef::b("string"), facets: vec![], facets_as_attrs: false }));
             Some(s)
         }
